@@ -1,7 +1,9 @@
 SPECIFICATION Spec
 CONSTANTS
   NT = 4
+  StatsAfterUnlock = FALSE
+  TrackStats = FALSE
   MaxOps = 2
-INVARIANTS OneWriter NoRemapUnderReaders MetaExclusive
+INVARIANTS StatsFresh OneWriter NoRemapUnderReaders MetaExclusive
 PROPERTIES AllReturn
 CHECK_DEADLOCK TRUE
